@@ -883,7 +883,10 @@ class Sampler():
                         enumerate(blobs[0])]
                 else:
                     self.blobs_dtype = np.array([blobs[0][0]]).dtype
-            blobs = np.squeeze(np.array(blobs, dtype=self.blobs_dtype))
+            blobs = np.array(blobs, dtype=self.blobs_dtype)
+            # Remove axes of length one but never the axis over the points.
+            blobs = np.squeeze(blobs, axis=tuple(
+                i for i in range(1, blobs.ndim) if blobs.shape[i] == 1))
         else:
             log_l = np.array(result)
             blobs = None
